@@ -16,7 +16,9 @@ def enumerate_cases(module, cfg, consts=None, timeout=3600, workers=1):
         cfgpath = os.path.join(vlib.OUT, "fncfg_%s_%d.cfg" % (cfg.replace(".cfg", ""), os.getpid()))
         open(cfgpath, "w").write(txt)
     rc, out = vlib.tlc(module, cfgpath, cwd=os.path.join(vlib.SPEC, "fn"), workers=workers, heap="-Xmx8g", timeout=timeout)
-    p = vlib.parse_tlc(out)
+    # the verdict is parsed from what TLC says besides the printed cases (a case line can be hundreds of kilobytes of digits and
+    # commas, on which the state-count pattern of parse_tlc backtracks quadratically)
+    p = vlib.parse_tlc("\n".join(l for l in out.split("\n") if not l.startswith('<<"CASE"')))
     if p["error"] or p["distinct"] is None:
         if not p["violated"]:
             raise vlib.Infra("TLC failed on fn/%s: %s\n%s" % (module, p["error"], out[-2000:]))
